@@ -1,6 +1,6 @@
+import Props.FnTie
 import JwtProofs.Decode
 import JwtModel.Encode
-import Props.FnTie
 /-!
 # C02 — only permitted key roles can issue each claim kind; typed decoders are kind-safe
 
@@ -100,15 +100,53 @@ theorem auth_kinds_declare_own_kind (cr : Crypto) (tok : Str) (c : Claims) (hd :
       | ok v =>
         simp only [h1, bind, Except.bind, pure, Except.pure] at hl
         by_cases hok : declaredOk Gen.V2.cAuthorizationRequestClaim v = true
-        · simp only [hok, if_true, Except.ok.injEq] at hl; rw [← hl]; exact hok
+        · by_cases hvo : versionOk id.version v = true
+          · simp only [hok, hvo, Bool.and_self, if_true, Except.ok.injEq] at hl; rw [← hl]; exact hok
+          · simp [hok, hvo] at hl
         · simp [hok] at hl
     · cases h1 : decodeJson Gen.V2.AuthorizationResponseClaims (Codec.zero Gen.V2.AuthorizationResponseClaims) j with
       | error e => simp [h1, bind, Except.bind] at hl
       | ok v =>
         simp only [h1, bind, Except.bind, pure, Except.pure] at hl
         by_cases hok : declaredOk Gen.V2.cAuthorizationResponseClaim v = true
-        · simp only [hok, if_true, Except.ok.injEq] at hl; rw [← hl]; exact hok
+        · by_cases hvo : versionOk id.version v = true
+          · simp only [hok, hvo, Bool.and_self, if_true, Except.ok.injEq] at hl; rw [← hl]; exact hok
+          · simp [hok, hvo] at hl
         · simp [hok] at hl
+  · rcases hk with hk | hk <;> rw [hk] at hck <;> cases hck
+
+/-- **Authorization claims never report a newer version than the one their signature layout was checked for**: the
+decoder verified the signature over the text of version `ver0`, and the claims it returns declare a version ≤ `ver0`
+(a top-level `type` — version 1, payload-only signature — cannot carry a `nats.version` of 2; repair D14). -/
+theorem auth_kinds_version_checked (cr : Crypto) (tok : Str) (c : Claims) (hd : decode cr tok = .ok c)
+    (hk : c.kind = .authRequest ∨ c.kind = .authResponse) :
+    ∃ h p s header ver0 sig, splitOn '.' tok = [h, p, s] ∧ B64.decodeString s = some sig ∧
+      verifySig cr c.issuer (signedText header ver0 c.kind h p) sig = true ∧ versionOk ver0 c.val = true := by
+  obtain ⟨h, p, s, header, _, j, ver0, sig, hs, _, _, _, h4, hsig, hv, _⟩ := decode_ok_inv cr tok c hd
+  refine ⟨h, p, s, header, ver0, sig, hs, hsig, hv, ?_⟩
+  obtain ⟨id, _, _, hcase⟩ := loadClaims_inv j ver0 c h4
+  rcases hcase with ⟨k', _, hck, hver, hl⟩ | ⟨_, _, _, hck, _⟩
+  · subst hck
+    rw [hver]
+    rcases hk with hk | hk <;> rw [hk] at hl <;> simp only [loadTyped] at hl
+    · cases h1 : decodeJson Gen.V2.AuthorizationRequestClaims (Codec.zero Gen.V2.AuthorizationRequestClaims) j with
+      | error e => simp [h1, bind, Except.bind] at hl
+      | ok v =>
+        simp only [h1, bind, Except.bind, pure, Except.pure] at hl
+        by_cases hvo : versionOk id.version v = true
+        · by_cases hok : declaredOk Gen.V2.cAuthorizationRequestClaim v = true
+          · simp only [hok, hvo, Bool.and_self, if_true, Except.ok.injEq] at hl; rw [← hl]; exact hvo
+          · simp [hok] at hl
+        · simp [hvo] at hl
+    · cases h1 : decodeJson Gen.V2.AuthorizationResponseClaims (Codec.zero Gen.V2.AuthorizationResponseClaims) j with
+      | error e => simp [h1, bind, Except.bind] at hl
+      | ok v =>
+        simp only [h1, bind, Except.bind, pure, Except.pure] at hl
+        by_cases hvo : versionOk id.version v = true
+        · by_cases hok : declaredOk Gen.V2.cAuthorizationResponseClaim v = true
+          · simp only [hok, hvo, Bool.and_self, if_true, Except.ok.injEq] at hl; rw [← hl]; exact hvo
+          · simp [hok] at hl
+        · simp [hvo] at hl
   · rcases hk with hk | hk <;> rw [hk] at hck <;> cases hck
 
 /-- **Encode refuses a signing key of a non-permitted role** (an error, hence no token). -/
